@@ -378,6 +378,31 @@ func c01rootCause(cfg *c01cfg, t reflect.Type, doc []byte, class, exp, obs strin
 		if captures(t) && lenientValid(doc) {
 			return "accepts-where-std-rejects:capture-destination:string-contents-not-validated"
 		}
+	case "rejects-where-std-accepts":
+		// integer map keys are parsed with the JSON number scanner, encoding/json parses them
+		// with strconv.ParseInt / ParseUint, which also take "+1" and leading zeros. Exact test:
+		// rewriting every such key to its canonical spelling makes sonic accept with the
+		// reference's value.
+		if t.Kind() == reflect.Map && t.Key().Kind() >= reflect.Int && t.Key().Kind() <= reflect.Uintptr {
+			canon := c01intKeyRe.ReplaceAllFunc(doc, func(m []byte) []byte {
+				s := strings.TrimPrefix(string(m[1:len(m)-2]), "+")
+				neg := strings.HasPrefix(s, "-")
+				s = strings.TrimLeft(strings.TrimPrefix(s, "-"), "0")
+				if s == "" {
+					s = "0"
+				}
+				if neg && s != "0" {
+					s = "-" + s
+				}
+				return []byte(`"` + s + `":`)
+			})
+			if string(canon) != string(doc) {
+				sp := reflect.New(t)
+				if e, _ := safeUnmarshal(cfg.api.Unmarshal, append([]byte{}, canon...), sp.Interface()); e == nil && "ok: "+gen.Dump(sp.Elem()) == exp {
+					return "rejects-where-std-accepts:integer-map-key-in-a-spelling-only-strconv-accepts(sign-or-leading-zeros)"
+				}
+			}
+		}
 	}
 	return ""
 }
@@ -539,6 +564,23 @@ func init() {
 					}
 				}
 			}
+			// integer map keys (cheap): every key width x spellings around each width's range
+			for ti, t := range c01intKeyTypes() {
+				if !c.Mine(297000 + ti) {
+					continue
+				}
+				for _, d := range c01intKeyDocs() {
+					for ci := range cfgs[:2] {
+						cfg := &cfgs[ci]
+						r.Evaluations++
+						r.Count("integer_map_key_cases", 1)
+						c.SetCase(fmt.Sprintf(`{"cfg":%q,"type":%q,"doc_hex":"%x"}`, cfg.name, t.Name, d))
+						if v := c01judge(cfg, t, []byte(d)); v != nil {
+							r.Violate(*v)
+						}
+					}
+				}
+			}
 			// field-lookup stratum first (cheap): wide structs x documents naming each field
 			c01fieldCases(c, func(t gen.TypeCase, doc []byte) bool {
 				for ci := range cfgs {
@@ -609,6 +651,9 @@ func init() {
 					}
 				}
 				if t := c01fieldTypeByName(cs.Type); t != nil {
+					return c01judge(&cfgs[ci], *t, doc)
+				}
+				if t := c01intKeyTypeByName(cs.Type); t != nil {
 					return c01judge(&cfgs[ci], *t, doc)
 				}
 			}
